@@ -40,6 +40,8 @@ where
       None => dur,
       Some(at) => {
         let now = Instant::now();
+        #[cfg(feature = "verif_hooks")]
+        let now = crate::verif_hooks::now().unwrap_or(now);
         at.saturating_duration_since(now)
       }
     };
